@@ -426,6 +426,9 @@ def run(ctx):
     r08d(ctx)
     r08e(ctx)
     r08f(ctx)
+    # a getter that resolves a coordinate per row returns cells of other columns, stamped with other coordinates (rule shared with C19)
+    from .c19 import r19g
+    r19g(ctx)
 
 
 from ..selftest import Seed, unparse_seed  # noqa: E402
